@@ -22,6 +22,9 @@ pub fn install_hook() {
         let loc = info.location().map(|l| format!("{}:{}", l.file(), l.line())).unwrap_or_else(|| "?".into());
         let msg = if let Some(s) = info.payload().downcast_ref::<&str>() { s.to_string() } else if let Some(s) = info.payload().downcast_ref::<String>() { s.clone() } else { "?".into() };
         let short: String = msg.chars().take(80).collect();
+        if std::env::var("MV_PANIC_LOG").is_ok() {
+            eprintln!("PANIC {} ({})", loc, short);
+        }
         *LAST_PANIC.lock().unwrap() = format!("{} ({})", loc.replace("/repo/", ""), short);
     }));
 }
@@ -198,9 +201,16 @@ pub fn battery(bytes: Vec<u8>) -> (String, Vec<(String, String)>) {
     guard("flush", &mut panics, || {
         let _ = p.flush();
     });
-    guard("into_inner", &mut panics, || {
-        let _ = p.into_inner();
-    });
+    if panics.is_empty() {
+        guard("into_inner", &mut panics, || {
+            let _ = p.into_inner();
+        });
+    } else {
+        // After a panic the battery stopped; the package object still has to go.  Its Drop saves pending changes and
+        // may well panic again (the container's lock is poisoned): that second panic is not the library's answer to the
+        // file - the first one is - so it is absorbed here instead of taking the worker process down.
+        let _ = catch_unwind(AssertUnwindSafe(move || drop(p)));
+    }
     ("Ok".into(), panics)
 }
 
